@@ -128,6 +128,10 @@ fn main() -> anyhow::Result<()> {
                 crashed: list("--crashed"),
                 crash_at_ms: num("--crash-at", 0),
                 standstill_ms: num("--standstill", 0),
+                lag: arg_after(&args, "--lag").map(|s| {
+                    let v: Vec<u64> = s.split(',').map(|x| x.parse().unwrap()).collect();
+                    (v[0] as usize, v[1], v[2])
+                }),
                 seed,
                 gst_ms: num("--gst", 0),
                 chaos_ms: num("--chaos", 2000),
